@@ -339,11 +339,58 @@ def match_single_paths(ctx, py: PyRepo):
            where)
 
 
+def match_list_shape(ctx, py: PyRepo):
+    """`match(equations)` solves the whole system: every equation is handed to match_single together with the substitution
+    accumulated so far, a failure fails the system, the accumulator becomes the returned substitution; no equation is skipped
+    (an equation `(p, p)` with metavariables still pins `phi_i := phi_i`)."""
+    from ..core.pyeval import PyEval, show
+    fn = py.function('pattern', 'match')
+    where = py.where('pattern', fn)
+    ctx.require(len(fn.args.args) == 1, 'pattern.match: signature changed')
+    EQS = ('param', fn.args.args[0].arg)
+    paths = PyEval().paths(fn)
+    final = [p for p in paths if p.end[0] == 'return' and p.end[1] != ('const', None)]
+    ctx.require(len(final) >= 1, 'pattern.match: no returning path')
+    n = 0
+    for p in final:
+        loops = [e for e in p.events if e.kind == 'loop' and e.value[2] == EQS]
+        ok_ret = p.end[1][0] == 'loopvar'
+        ctx.ob('match-shape', 'system/returns-accumulator', ok_ret and len(loops) == 1,
+               f'match must return the substitution accumulated over one loop over all the equations; it returns {show(p.end[1])}', where)
+        if not (ok_ret and len(loops) == 1):
+            continue
+        ACC = p.end[1][1]
+        elem = ('elem', EQS)
+        lhs, rhs = ('item', elem, 0), ('item', elem, 1)
+        for sp in loops[0].extra:
+            n += 1
+            cevs = [e for e in sp.events if e.kind == 'ecall' and e.value[0] == 'call' and e.value[1] == ('name', 'match_single')]
+            calls = [e.value for e in cevs]
+            # the third argument must be the accumulator itself (by name: its value is indistinguishable from a fresh `{}` here)
+            threads = all(isinstance(e.node, ast.Call) and len(e.node.args) == 3 and isinstance(e.node.args[2], ast.Name)
+                          and e.node.args[2].id == ACC for e in cevs)
+            if sp.end[0] in ('fall', 'continue'):
+                good = len(calls) == 1 and threads and len(calls[0][2]) == 3 and calls[0][2][0] == lhs and calls[0][2][1] == rhs \
+                    and sp.env.get(ACC) == calls[0] and any(c == ('cmp', 'is', calls[0], ('const', None)) and b is False for c, b in sp.conds)
+                why = ' and '.join(f'{show(c)} is {b}' for c, b in sp.conds) or 'unconditionally'
+                ctx.ob('match-shape', f'system/equation-path{n}', good,
+                       f'match moves on to the next equation ({why[:160]}) without having solved this one with match_single(pattern, instance, '
+                       f'<accumulated substitution>) and kept the result: an equation that is skipped - even a syntactically trivial one - '
+                       f'no longer constrains the metavariables it mentions', where)
+            elif sp.end[0] == 'return':
+                good = sp.end[1] == ('const', None) and len(calls) == 1 and any(
+                    c == ('cmp', 'is', calls[0], ('const', None)) and b is True for c, b in sp.conds)
+                ctx.ob('match-shape', f'system/failure-path{n}', good,
+                       'match may give up inside the loop only by returning None when match_single failed on the current equation', where)
+    ctx.analysed['match(): loop paths'] = n
+
+
 def run(ctx):
     py = PyRepo.get()
     lint(ctx, py)
     match_single_shape(ctx, py)
     match_single_paths(ctx, py)
+    match_list_shape(ctx, py)
     # C12 T1 for match_single
     from . import c12
     for mname, qn, fn, subj, lst, has_inst in c12.dispatch_sites(py):
